@@ -508,6 +508,10 @@ func (ld *Layerdefs) Mount(name string) error {
 		if err != nil {
 			return err
 		}
+	}
+	// Mounting a derived layer may create the packages directory of its base layer
+	// ($$base import), so make the export links only once the whole chain is mounted
+	for _, layer := range ancestors {
 		err = ld.makeExportSymlinks(layer)
 		if err != nil {
 			return err
